@@ -625,9 +625,15 @@ namespace chaiscript {
             ++m_position;
           }
 
+          // if this turns out not to be a float, only the leading digits have been consumed
+          const auto int_end = m_position;
+
           if (m_position.has_more() && (std::tolower(*m_position) == 'e')) {
             // The exponent is valid even without any decimal in the Float (1e8, 3e-15)
-            return read_exponent_and_suffix();
+            if (read_exponent_and_suffix()) {
+              return true;
+            }
+            m_position = int_end;
           } else if (m_position.has_more() && (*m_position == '.')) {
             ++m_position;
             if (m_position.has_more() && char_in_alphabet(*m_position, detail::int_alphabet)) {
@@ -636,7 +642,10 @@ namespace chaiscript {
               }
 
               // After any decimal digits, support an optional exponent (3.7e3)
-              return read_exponent_and_suffix();
+              if (read_exponent_and_suffix()) {
+                return true;
+              }
+              m_position = int_end;
             } else {
               --m_position;
             }
